@@ -448,6 +448,13 @@ func init() {
 						for _, q := range fc.FriQueryIndices {
 							flat = append(flat, q.Limb)
 						}
+						// the challenger stays usable: what it absorbed for the FRI challenges must
+						// influence everything drawn afterwards
+						flat = append(flat, c.GetChallenge().Limb)
+						c.ObserveElement(gl.NewVariable(pow))
+						for _, v := range c.GetNChallenges(3) {
+							flat = append(flat, v.Limb)
+						}
 						return nil
 					})
 					o.Events += events(res) + 1
@@ -479,6 +486,9 @@ func init() {
 					rc.ObserveElement(pow)
 					want = append(want, rc.GetChallenge())
 					want = append(want, rc.GetN(nq)...)
+					want = append(want, rc.GetChallenge())
+					rc.ObserveElement(pow)
+					want = append(want, rc.GetN(3)...)
 					if len(flat) != len(want) {
 						return fw.Violate("challenge_count", fmt.Sprintf("fri challenges: %d vs %d (caps=%d queries=%d)", len(flat), len(want), ncaps, nq))
 					}
@@ -638,7 +648,7 @@ func init() {
 						idxs = append(idxs, r.Intn(n))
 					}
 				}
-				corrs := []string{"none", "leaf", "sibling", "indexbit", "capbit", "capsel", "capunsel", "swaplr", "wrongslot"}
+				corrs := []string{"none", "leaf", "sibling", "indexbit", "capbit", "capsel", "capunsel", "swaplr", "wrongslot", "nonboolbit"}
 				for _, idx := range idxs {
 					sib := tree.Prove(idx)
 					for _, corr := range corrs {
@@ -649,7 +659,35 @@ func init() {
 						index := uint64(idx)
 						capIdx := uint64(idx) >> uint(lowBits)
 						low := index & (1<<uint(lowBits) - 1)
+						var bit0 *big.Int // non-boolean value in the first index-bit position
 						switch corr {
+						case "nonboolbit":
+							// a leaf that is not in the tree, a crafted first sibling s' = L+R-d and the
+							// "bit" t = (L-d)/(s'-d): an ordering computed arithmetically from the bit
+							// instead of selected by it would rebuild the true children (L, R)
+							if lowBits == 0 {
+								continue
+							}
+							cur0 := ref.BNHashOrNoop(leaf)
+							L, R := cur0, sb[0]
+							if low&1 == 1 {
+								L, R = sb[0], cur0
+							}
+							leaf[r.Intn(w)] = ref.Add(leaf[r.Intn(w)], 1)
+							d := ref.BNHashOrNoop(leaf)
+							var s2, num, den, t fr.Element
+							s2.Add(&L, &R).Sub(&s2, &d)
+							num.Sub(&L, &d)
+							den.Sub(&s2, &d)
+							if den.IsZero() || d.Equal(&cur0) {
+								continue
+							}
+							t.Div(&num, &den)
+							if t.IsZero() || t.IsOne() {
+								continue // the neighbouring leaf happens to hold the forged value: an honest opening
+							}
+							sb[0] = s2
+							bit0 = frBig(t)
 						case "leaf":
 							k := r.Intn(w)
 							if r.Intn(3) == 0 {
@@ -691,7 +729,7 @@ func init() {
 						}
 						// reference iff
 						d, _ := ref.MerkleFold(leaf, low, sb)
-						want := d.Equal(&cap[capIdx])
+						want := d.Equal(&cap[capIdx]) && bit0 == nil
 						res := harnRunOpt(engine.Options{Face: engine.Native}, func(api frontend.API) error {
 							cd := types.CommonCircuitData{}
 							fc := fri.NewChip(api, &cd, &cd.FriParams)
@@ -702,6 +740,9 @@ func init() {
 							lb := make([]frontend.Variable, lowBits)
 							for i := range lb {
 								lb[i] = (low >> uint(i)) & 1
+							}
+							if bit0 != nil {
+								lb[0] = bit0
 							}
 							cb := make([]frontend.Variable, 4)
 							for i := range cb {
